@@ -28,7 +28,6 @@ import os, sys, json, time, random, subprocess, hashlib, re, fcntl, importlib, t
 ROOT = os.path.dirname(os.path.dirname(os.path.abspath(__file__)))
 LEAN = os.path.join(ROOT, 'lean')
 REPO = os.environ.get('VERIF_REPO', '/repo')
-DRIVER = os.path.join(LEAN, '.lake', 'build', 'bin', 'ndn_driver')
 ALLOWED_AXIOMS = {'propext', 'Classical.choice', 'Quot.sound'}
 FORBIDDEN = re.compile(r'\bsorry\b|\badmit\b|^\s*axiom\s|native_decide|bv_decide|implemented_by|\bunsafe\s|maxHeartbeats\s+0', re.M)
 
@@ -154,13 +153,14 @@ def lean_sources_of(targets):
 class Driver:
     """batch interface to the compiled Lean model"""
 
-    def __init__(self):
-        self.ok = os.path.exists(DRIVER)
+    def __init__(self, prop):
+        self.path = os.path.join(LEAN, '.lake', 'build', 'bin', f'drv_{prop}')
+        self.ok = os.path.exists(self.path)
 
     def ask(self, lines):
         if not lines:
             return []
-        p = subprocess.run([DRIVER], input='\n'.join(lines) + '\n', capture_output=True, text=True, timeout=3000)
+        p = subprocess.run([self.path], input='\n'.join(lines) + '\n', capture_output=True, text=True, timeout=3000)
         out = p.stdout.split('\n')
         if out and out[-1] == '':
             out.pop()
@@ -238,7 +238,7 @@ def _check(prop, tier, replay):
 
     # ---------- 2. proofs --------------------------------------------------------------------
     targets = list(P.LEAN_TARGETS)
-    ok, log, broken = lean_build(targets + ['ndn_driver'])
+    ok, log, broken = lean_build(targets + [f'drv_{prop}'])
     theorems = list(P.THEOREMS)
     axioms, audit_out = ({t: None for t in theorems}, '')
     broken_names = []
@@ -261,7 +261,7 @@ def _check(prop, tier, replay):
         else:
             undischarged.append((t, ax))
     proof_broken = bool(undischarged) or bool(forbidden)
-    driver = Driver()
+    driver = Driver(prop)
     if not driver.ok:
         print('note: Lean driver not built; correspondence cannot run')
 
@@ -410,7 +410,7 @@ def _check(prop, tier, replay):
     samples = []
     for i in list(range(min(3, len(cases)))):
         samples.append({'case': cases[i], 'impl': impls[i], 'model': answers.get(i)})
-    checker_cmd = f'cd lean && lake build {" ".join(targets)} ndn_driver && lake env lean NdnProofs/Audit/{prop}.lean  (#print axioms per theorem; grep for sorry/admit/axiom/native_decide/bv_decide in {len(sources)} source files)'
+    checker_cmd = f'cd lean && lake build {" ".join(targets)} drv_{prop} && lake env lean NdnProofs/Audit/{prop}.lean  (#print axioms per theorem; grep for sorry/admit/axiom/native_decide/bv_decide in {len(sources)} source files)'
     leanchecker = None
     if tier == 'thorough' and ok:
         with Lock(os.path.join(LEAN, '.build.lock')):
